@@ -205,6 +205,24 @@ func largeSearchJobs(r *hx.Rng, n int) (jobs []job, descs []string) {
 // ---------------------------------------------------------------- corr: B and L lines
 // genLargeNode: like genNode with a high share of 16-byte headers
 func genLargeNode(r *hx.Rng, depth int) *node {
+	if depth > 0 && r.Intn(8) == 0 {
+		// stsd{sample entries}: the count mostly right; entries are visual sample entries (with children) or unknown boxes
+		n := &node{name: "stsd", cont: true}
+		k := r.Intn(3)
+		for i := 0; i < k; i++ {
+			if r.Intn(3) == 0 {
+				n.kids = append(n.kids, &node{name: "zzzz", payload: r.Pick(0, 4)})
+				continue
+			}
+			e := &node{name: []string{"avc1", "hev1", "vp09"}[r.Intn(3)], cont: true, prefix: vseFixed(r, r.Pick(0, 5, 31, 31, 40))}
+			for j := r.Intn(3); j > 0; j-- {
+				e.kids = append(e.kids, &node{name: []string{"free", "zzzz", "skip", "abcd"}[r.Intn(4)], payload: r.Pick(0, 1, 9), large: r.Intn(8) == 0})
+			}
+			n.kids = append(n.kids, e)
+		}
+		n.prefix = cat(u32(0), u32(uint32(k+r.Pick(0, 0, 0, 0, 1))))
+		return n
+	}
 	if depth > 0 && r.Intn(3) == 0 {
 		n := &node{name: contNames[r.Intn(len(contNames))], cont: true, large: r.Intn(4) == 0}
 		for k := r.Intn(4); k > 0; k-- {
